@@ -236,9 +236,10 @@ def run(ctx, lean_ok):
                 if not d95_after <= dmax * (1 + 1e-12):
                     ctx.violation('rosin_rammler_fit:d95-exceeds-dmax', 'after the fit the 95th percentile exceeds the maximum stable size',
                                   dict(case, got=f, d95_after=d95_after))
-                if d95_before <= dmax and f[0] != d50:
+                # clearly inside the cap: bit-identical median; within rounding of the boundary d95 = d_max: equal to rounding
+                if (d95_before <= dmax * (1 - 1e-12) and f[0] != d50) or (d95_before <= dmax and not close(f[0], d50, 1e-11)):
                     ctx.violation('rosin_rammler_fit:median-changed', 'median changed although it already satisfied the cap', dict(case, got=f))
-                if not f[0] <= d50:
+                if not f[0] <= d50 * (1 + 1e-12):
                     ctx.violation('rosin_rammler_fit:median-increased', 'the fit increased the median', dict(case, got=f))
             if f[1] != K05 or f[2] != alpha:
                 ctx.violation('rosin_rammler_fit:parameters', 'k or alpha not returned as documented', dict(case, got=f))
@@ -267,9 +268,9 @@ def run(ctx, lean_ok):
                 if not d95_after <= dmax_ln * (1 + 1e-12):
                     ctx.violation('log_normal_fit:d95-exceeds-dmax', 'after the fit the 95th percentile exceeds the maximum stable size',
                                   dict(case, got=g, d95_after=d95_after))
-                if d95_before <= dmax_ln and g[0] != d50:
+                if (d95_before <= dmax_ln * (1 - 1e-12) and g[0] != d50) or (d95_before <= dmax_ln and not close(g[0], d50, 1e-11)):
                     ctx.violation('log_normal_fit:median-changed', 'median changed although it already satisfied the cap', dict(case, got=g))
-                if not g[0] <= d50:
+                if not g[0] <= d50 * (1 + 1e-12):
                     ctx.violation('log_normal_fit:median-increased', 'the fit increased the median', dict(case, got=g))
             ask(req('Psf.ln_fit', d50, 0 if dmax_ln is None else 1, 0.0 if dmax_ln is None else dmax_ln, sigma),
                 lambda o, g=g, case=case: corr('Model.Psf.lnFit vs psf.log_normal_fit', o, g, case))
